@@ -10,6 +10,7 @@ from vlib import gen_envelope as GE, gen_json as G, keys, ref_ed25519, ref_verif
 from vlib.ref_canon import canon, jeq, same_order
 from vlib import cfgunit as _cfgunit
 from vlib.runner import Unit, Violation
+from vlib import threaded as _threaded
 from vlib import interfere as _intf, interrupt as _interrupt
 
 PROPERTY = "C09"
@@ -212,4 +213,5 @@ UNITS = [
     _cfgunit.unit_under_config(PROPERTY, 'roundtrip', exclude=()),
     _intf.unit_after(PROPERTY, 'roundtrip', quick=150, thorough=6000),
     _interrupt.unit_interrupted(PROPERTY, 'roundtrip', quick=12, thorough=300, max_points=40, shards_quick=12),
+    _threaded.unit_threads(PROPERTY),
 ]
